@@ -60,8 +60,10 @@ class TapeImageContentInjector(TapeImageWorker):
                 elif fileExtension == "CSV":
                     # TODO check the actual format (separator 0xD ? )
                     fileType = 1  # TODO check that file created by basic file commands have type 1 / data
+            # a leader block holds 8 characters of name and 3 of extension : what is
+            # reported is what is stored
             leadBloc = LeaderTapeBlockDescriptor(
-                fileName, fileExtension, fileType, fileMode
+                fileName[0:8], fileExtension[0:3], fileType, fileMode
             )
             try:
                 tape.writeBlock(leadBloc.toTapeBlock())
